@@ -202,62 +202,21 @@ theorem subAll_spec (k r : Nat) : ∀ (l l' : Ledger), (keys l).Nodup → hasKey
       | err => rw [hb] at h; simp at h
       | panic => rw [hb] at h; simp at h
 
-/-- `recordClaimed` on the two shapes `claimed` ever has: empty, or one entry -/
-theorem recordClaimed_nil (k r : Nat) : recordClaimed k r [] = .ok [(k, r)] := rfl
-
-theorem recordClaimed_single {k r k0 c : Nat} {cl' : Ledger} (h : recordClaimed k r [(k0, c)] = .ok cl') :
-    (k0 = k ∧ cl' = [(k0, c + r)]) ∨ (k0 ≠ k ∧ cl' = [(k0, c)]) := by
-  simp only [recordClaimed, addAll] at h
-  by_cases hk : k0 = k
-  · rw [if_pos hk] at h
-    split at h
-    · injection h with h; exact Or.inl ⟨hk, h.symm⟩
-    · cases h
-  · rw [if_neg hk] at h
-    injection h with h; exact Or.inr ⟨hk, h.symm⟩
-
-/-- what `claim` keeps true of one epoch's three ledgers: `claimed` is empty (nothing paid yet, `available`
-    still is `total`) or has exactly ONE entry, for an asset of `total`, and for that asset
-    `claimed + available = total`; for every asset `claimed + available ≤ total`. -/
+/-- what `claim` keeps true of one epoch's three ledgers: every asset is listed at most once in `claimed`,
+    only assets of `total` are listed, and for EVERY asset `claimed + available = total`. -/
 def ClaimedOk (tot av cl : Ledger) : Prop :=
-  ((cl = [] ∧ av = tot) ∨ (∃ k c, cl = [(k, c)] ∧ k ∈ keys tot ∧ c + amtOf k av = amtOf k tot)) ∧
-  ∀ a, amtOf a cl + amtOf a av ≤ amtOf a tot
+  (keys cl).Nodup ∧ (∀ j ∈ keys cl, j ∈ keys tot) ∧ ∀ a, amtOf a cl + amtOf a av = amtOf a tot
 
-/-- an epoch holding at most one asset satisfies the ledger equation for every asset -/
-theorem claimedOk_single {tot av cl : Ledger} (h : ClaimedOk tot av cl) (h1 : tot.length ≤ 1) (a : Nat) :
-    amtOf a cl + amtOf a av = amtOf a tot := by
-  obtain ⟨hsh, hle⟩ := h
-  cases hsh with
-  | inl h0 => rw [h0.1, h0.2]; simp [amtOf]
-  | inr h0 =>
-    obtain ⟨k, c, hcl, hk, heq⟩ := h0
-    by_cases ha : k = a
-    · subst ha; rw [hcl]; simp only [amtOf, sel_same]; omega
-    · -- `tot` has one entry, for `k`; so nothing of `a`
-      have : amtOf a tot = 0 := by
-        apply amtOf_of_not_mem
-        intro hm
-        match tot, h1, hk, hm with
-        | [(j, y)], _, hk, hm =>
-          simp only [keys, List.map_cons, List.map_nil, List.mem_cons, List.not_mem_nil, or_false] at hk hm
-          exact ha (hk.trans hm.symm)
-      have := hle a
-      omega
+/-- a fresh epoch: nothing claimed, `available = total` -/
+theorem claimedOk_fresh (tot : Ledger) : ClaimedOk tot tot [] :=
+  ⟨by simp [keys], fun j hj => by simp [keys] at hj, fun a => by simp [amtOf]⟩
 
-/-- the equation for the asset `claimed` records, and for every asset while nothing has been claimed -/
-theorem claimedOk_recorded {tot av cl : Ledger} (h : ClaimedOk tot av cl) (a : Nat) (ha : cl = [] ∨ a ∈ keys cl) :
-    amtOf a cl + amtOf a av = amtOf a tot := by
-  obtain ⟨hsh, _⟩ := h
-  cases hsh with
-  | inl h0 => rw [h0.1, h0.2]; simp [amtOf]
-  | inr h0 =>
-    obtain ⟨k, c, hcl, _, heq⟩ := h0
-    cases ha with
-    | inl h => rw [hcl] at h; cases h
-    | inr h =>
-      rw [hcl] at h
-      simp only [keys, List.map_cons, List.map_nil, List.mem_cons, List.not_mem_nil, or_false] at h
-      subst h; rw [hcl]; simp only [amtOf, sel_same]; omega
+/-- `recordClaimed` = one round of `aggregate_assets` on `claimed` -/
+theorem recordClaimed_spec {k r : Nat} {cl cl' : Ledger} (h : recordClaimed k r cl = .ok cl') :
+    (∀ a, amtOf a cl' = amtOf a cl + sel k a r) ∧ ((keys cl).Nodup → (keys cl').Nodup) ∧
+    (∀ j, j ∈ keys cl' ↔ j ∈ keys cl ∨ j = k) := by
+  unfold recordClaimed at h
+  exact aggOne_spec h
 
 theorem claimFee_spec {sh k t : Nat} {av cl acc av' cl' acc' : Ledger} {tot : Ledger}
     (hn : (keys av).Nodup) (hk : k ∈ keys tot) (hc : ClaimedOk tot av cl)
@@ -266,7 +225,7 @@ theorem claimFee_spec {sh k t : Nat} {av cl acc av' cl' acc' : Ledger} {tot : Le
     (∀ a, amtOf a av' + amtOf a acc' = amtOf a av + amtOf a acc) ∧
     (∀ a, amtOf a av' ≤ amtOf a av) ∧
     (∀ a, amtOf a cl ≤ amtOf a cl') ∧
-    (∀ a, amtOf a cl' + amtOf a acc ≤ amtOf a cl + amtOf a acc') ∧
+    (∀ a, amtOf a cl' + amtOf a acc = amtOf a cl + amtOf a acc') ∧
     ((keys acc).Nodup → (keys acc').Nodup) := by
   unfold claimFee at h
   split at h
@@ -274,7 +233,7 @@ theorem claimFee_spec {sh k t : Nat} {av cl acc av' cl' acc' : Ledger} {tot : Le
   · split at h
     · injection h with h; injection h with h1 h; injection h with h2 h3
       subst h1; subst h2; subst h3
-      exact ⟨rfl, hc, fun _ => rfl, fun _ => Nat.le_refl _, fun _ => Nat.le_refl _, fun _ => Nat.le_refl _, id⟩
+      exact ⟨rfl, hc, fun _ => rfl, fun _ => Nat.le_refl _, fun _ => Nat.le_refl _, fun _ => rfl, id⟩
     · rename_i _ hr0
       generalize hr : t * sh / E18 = r at h hr0
       split at h
@@ -303,84 +262,17 @@ theorem claimFee_spec {sh k t : Nat} {av cl acc av' cl' acc' : Ledger} {tot : Le
               subst h1; subst h2; subst h3
               obtain ⟨a1, a2, _⟩ := aggOne_spec ha
               obtain ⟨s1, s2⟩ := subAll_spec k r av av1 hn hhas hs
-              obtain ⟨hsh, hle⟩ := hc
-              -- the new `claimed`
-              have hcl : (amtOf k cl1 + amtOf k av1 = amtOf k tot ∧ ∃ c1, cl1 = [(k, c1)]) ∨
-                  (cl1 = cl ∧ ∃ k0 c, cl = [(k0, c)] ∧ k0 ≠ k) := by
-                cases hsh with
-                | inl h0 =>
-                  obtain ⟨hcl0, hav0⟩ := h0
-                  subst hcl0
-                  rw [recordClaimed_nil] at hrc
-                  injection hrc with hrc; subst hrc
-                  left
-                  refine ⟨?_, r, rfl⟩
-                  have := s2 k
-                  rw [sel_same] at this
-                  simp only [amtOf, sel_same]
-                  rw [← hav0]; omega
-                | inr h0 =>
-                  obtain ⟨k0, c, hcl0, hk0, heq⟩ := h0
-                  subst hcl0
-                  cases recordClaimed_single hrc with
-                  | inl hh =>
-                    obtain ⟨hkk, hcl1⟩ := hh
-                    subst hkk; subst hcl1
-                    left
-                    refine ⟨?_, c + r, rfl⟩
-                    have := s2 k0
-                    rw [sel_same] at this
-                    simp only [amtOf, sel_same]
-                    omega
-                  | inr hh =>
-                    exact Or.inr ⟨hh.2, k0, c, rfl, hh.1⟩
-              have hclle : ∀ a, amtOf a cl ≤ amtOf a cl1 ∧ amtOf a cl1 ≤ amtOf a cl + sel k a r := by
-                intro a
-                cases hsh with
-                | inl h0 =>
-                  obtain ⟨hcl0, _⟩ := h0
-                  subst hcl0
-                  rw [recordClaimed_nil] at hrc
-                  injection hrc with hrc; subst hrc
-                  simp only [amtOf]; omega
-                | inr h0 =>
-                  obtain ⟨k0, c, hcl0, _, _⟩ := h0
-                  subst hcl0
-                  cases recordClaimed_single hrc with
-                  | inl hh =>
-                    obtain ⟨hkk, hcl1⟩ := hh
-                    subst hkk; subst hcl1
-                    simp only [amtOf]
-                    unfold sel; split <;> omega
-                  | inr hh => rw [hh.2]; omega
-              refine ⟨s1, ⟨?_, fun a => ?_⟩, fun a => ?_, fun a => ?_, fun a => (hclle a).1, fun a => ?_, a2⟩
-              · right
-                cases hcl with
-                | inl hh =>
-                  obtain ⟨heq, c1, hc1⟩ := hh
-                  subst hc1
-                  refine ⟨k, c1, rfl, hk, ?_⟩
-                  simp only [amtOf, sel_same] at heq
-                  omega
-                | inr hh =>
-                  obtain ⟨hsame, k0, c, hcl0, hne⟩ := hh
-                  subst hsame
-                  cases hsh with
-                  | inl h0 => rw [h0.1] at hcl0; cases hcl0
-                  | inr h0 =>
-                    obtain ⟨k1, c1, hcl1, hk1, heq1⟩ := h0
-                    rw [hcl1] at hcl0
-                    injection hcl0 with hp _
-                    injection hp with hp1 hp2
-                    subst hp1; subst hp2
-                    refine ⟨k1, c1, hcl1, hk1, ?_⟩
-                    have := s2 k1
-                    rw [sel_ne r (Ne.symm hne)] at this
-                    omega
-              · have := hle a; have := s2 a; have := (hclle a).2; omega
+              obtain ⟨r1, r2, r3⟩ := recordClaimed_spec hrc
+              obtain ⟨hcn, hcs, hceq⟩ := hc
+              refine ⟨s1, ⟨r2 hcn, fun j hj => ?_, fun a => ?_⟩, fun a => ?_, fun a => ?_, fun a => ?_, fun a => ?_, a2⟩
+              · cases (r3 j).mp hj with
+                | inl hm => exact hcs j hm
+                | inr he => rw [he]; exact hk
+              · have := hceq a; have := s2 a; have := r1 a; omega
               · have := s2 a; have := a1 a; omega
               · have := s2 a; omega
-              · have := (hclle a).2; have := a1 a; omega
+              · have := r1 a; omega
+              · have := r1 a; have := a1 a; omega
 
 /-- the loop over `epoch.total`; `rest` is the part of `tot` still to be walked -/
 theorem claimFees_spec (sh : Nat) (tot : Ledger) : ∀ (rest av cl acc av' cl' acc' : Ledger),
@@ -390,7 +282,7 @@ theorem claimFees_spec (sh : Nat) (tot : Ledger) : ∀ (rest av cl acc av' cl' a
     (∀ a, amtOf a av' + amtOf a acc' = amtOf a av + amtOf a acc) ∧
     (∀ a, amtOf a av' ≤ amtOf a av) ∧
     (∀ a, amtOf a cl ≤ amtOf a cl') ∧
-    (∀ a, amtOf a cl' + amtOf a acc ≤ amtOf a cl + amtOf a acc') ∧
+    (∀ a, amtOf a cl' + amtOf a acc = amtOf a cl + amtOf a acc') ∧
     ((keys acc).Nodup → (keys acc').Nodup) := by
   intro rest
   induction rest with
@@ -399,7 +291,7 @@ theorem claimFees_spec (sh : Nat) (tot : Ledger) : ∀ (rest av cl acc av' cl' a
     unfold claimFees at h
     injection h with h; injection h with h1 h; injection h with h2 h3
     subst h1; subst h2; subst h3
-    exact ⟨rfl, hc, fun _ => rfl, fun _ => Nat.le_refl _, fun _ => Nat.le_refl _, fun _ => Nat.le_refl _, id⟩
+    exact ⟨rfl, hc, fun _ => rfl, fun _ => Nat.le_refl _, fun _ => Nat.le_refl _, fun _ => rfl, id⟩
   | cons p rest ih =>
     obtain ⟨k, t⟩ := p
     intro av cl acc av' cl' acc' hsub hn hc h
@@ -422,9 +314,12 @@ theorem claimFees_spec (sh : Nat) (tot : Ledger) : ∀ (rest av cl acc av' cl' a
 
 /-! ### predicates -/
 
-/-- the ledger invariant of one epoch, required as long as its `available` vector is non-empty: every
-    asset is listed once in `available`, and `ClaimedOk` -/
-def LedgerOk (e : Epoch) : Prop := e.avail ≠ [] → (keys e.avail).Nodup ∧ ClaimedOk e.total e.avail e.claimed
+/-- the ledger invariant of one epoch.  ALWAYS (also after expiry emptied `available`): per asset
+    `claimed + available ≤ total`.  As long as its `available` vector is non-empty (= until it expires):
+    every asset is listed once in `available`, and `ClaimedOk` — per asset `claimed + available = total`. -/
+def LedgerOk (e : Epoch) : Prop :=
+  (∀ a, amtOf a e.claimed + amtOf a e.avail ≤ amtOf a e.total) ∧
+  (e.avail ≠ [] → (keys e.avail).Nodup ∧ ClaimedOk e.total e.avail e.claimed)
 
 def AllLedger (es : List Epoch) : Prop := ∀ e ∈ es, LedgerOk e
 
@@ -459,8 +354,7 @@ theorem claimEpoch_spec {e e' : Epoch} {an : LairAns} {acc acc' : Ledger} (hl : 
     e'.id = e.id ∧ e'.start = e.start ∧ e'.total = e.total ∧ LedgerOk e' ∧
     (∀ a, amtOf a e'.avail + amtOf a acc' = amtOf a e.avail + amtOf a acc) ∧
     (∀ a, amtOf a e.claimed ≤ amtOf a e'.claimed) ∧
-    (∀ a, amtOf a e'.claimed + amtOf a acc ≤ amtOf a e.claimed + amtOf a acc') ∧
-    (e.total.length ≤ 1 → ∀ a, amtOf a e'.claimed + amtOf a acc = amtOf a e.claimed + amtOf a acc') ∧
+    (∀ a, amtOf a e'.claimed + amtOf a acc = amtOf a e.claimed + amtOf a acc') ∧
     ((keys acc).Nodup → (keys acc').Nodup) ∧
     (e'.avail = [] ↔ e.avail = []) := by
   unfold claimEpoch at h
@@ -477,19 +371,14 @@ theorem claimEpoch_spec {e e' : Epoch} {an : LairAns} {acc acc' : Ledger} (hl : 
       rw [hf] at h; simp only at h
       injection h with h; injection h with h1 h2
       subst h1; subst h2
-      obtain ⟨hn, hc⟩ := hl hne
+      obtain ⟨hn, hc⟩ := hl.2 hne
       obtain ⟨i1, i2, i3, i4, i5, i6, i7⟩ :=
         claimFees_spec sh e.total e.total e.avail e.claimed acc av1 cl1 acc1
           (fun p hp => List.mem_map.mpr ⟨p, hp, rfl⟩) hn hc hf
-      refine ⟨rfl, rfl, rfl, fun _ => ⟨by simp only; rw [i1]; exact hn, i2⟩, i3, i5, i6, ?_, i7, ?_⟩
-      · intro h1 a
-        have e1 := claimedOk_single hc h1 a
-        have e2 := claimedOk_single i2 h1 a
-        have := i3 a; have := i4 a
-        simp only
-        omega
-      · simp only
-        rw [← keys_nil_iff, i1, keys_nil_iff]
+      refine ⟨rfl, rfl, rfl, ⟨fun a => Nat.le_of_eq (i2.2.2 a), fun _ => ⟨by simp only; rw [i1]; exact hn, i2⟩⟩,
+        i3, i5, i6, i7, ?_⟩
+      simp only
+      rw [← keys_nil_iff, i1, keys_nil_iff]
 
 /-! ### `claimWalk` -/
 
@@ -504,8 +393,7 @@ theorem claimWalk_spec (ans : Nat → LairAns) (b : Nat) :
       AllLedger es → claimWalk ans b n es acc = .ok (es', t) →
       (∀ a, amtOf a t + sumAvail a es' = amtOf a acc + sumAvail a es) ∧
       (∀ a, sumClaimed a es ≤ sumClaimed a es') ∧
-      (∀ a, sumClaimed a es' + amtOf a acc ≤ sumClaimed a es + amtOf a t) ∧
-      ((∀ e ∈ es, e.total.length ≤ 1) → ∀ a, sumClaimed a es' + amtOf a acc = sumClaimed a es + amtOf a t) ∧
+      (∀ a, sumClaimed a es' + amtOf a acc = sumClaimed a es + amtOf a t) ∧
       es'.map (·.id) = es.map (·.id) ∧ es'.map (·.start) = es.map (·.start) ∧
       es'.map (·.total) = es.map (·.total) ∧
       es'.drop n = es.drop n ∧
@@ -519,7 +407,7 @@ theorem claimWalk_spec (ans : Nat → LairAns) (b : Nat) :
     unfold claimWalk at h
     injection h with h; injection h with h1 h2
     subst h1; subst h2
-    exact ⟨fun _ => rfl, fun _ => Nat.le_refl _, fun _ => Nat.le_refl _, fun _ _ => rfl, rfl, rfl, rfl, rfl, hall,
+    exact ⟨fun _ => rfl, fun _ => Nat.le_refl _, fun _ => rfl, rfl, rfl, rfl, rfl, hall,
       fun e' he' => Or.inl he', id⟩
   | succ n ih =>
     intro es acc es' t hall h
@@ -528,7 +416,7 @@ theorem claimWalk_spec (ans : Nat → LairAns) (b : Nat) :
       unfold claimWalk at h
       injection h with h; injection h with h1 h2
       subst h1; subst h2
-      exact ⟨fun _ => rfl, fun _ => Nat.le_refl _, fun _ => Nat.le_refl _, fun _ _ => rfl, rfl, rfl, rfl, rfl, hall,
+      exact ⟨fun _ => rfl, fun _ => Nat.le_refl _, fun _ => rfl, rfl, rfl, rfl, rfl, hall,
         fun e' he' => Or.inl he', id⟩
     | cons e es =>
       have hall' : AllLedger es := fun x hx => hall x (List.mem_cons_of_mem _ hx)
@@ -550,17 +438,13 @@ theorem claimWalk_spec (ans : Nat → LairAns) (b : Nat) :
             rw [hw] at h; simp only at h
             injection h with h; injection h with h1 h2
             subst h1; subst h2
-            obtain ⟨i1, i2, i3, i3', i4, i5, i5', i6, i7, i8, i9⟩ := ih es acc1 es1 t1 hall' hw
-            obtain ⟨c1, c2, c3, c4, c5, c6, c7, c8, c9, _⟩ :=
+            obtain ⟨i1, i2, i3, i4, i5, i5', i6, i7, i8, i9⟩ := ih es acc1 es1 t1 hall' hw
+            obtain ⟨c1, c2, c3, c4, c5, c6, c7, c9, _⟩ :=
               claimEpoch_spec (hall e List.mem_cons_self) hne hce
-            refine ⟨fun a => ?_, fun a => ?_, fun a => ?_, fun h1 a => ?_, ?_, ?_, ?_, ?_, ?_, ?_, fun hh => i9 (c9 hh)⟩
+            refine ⟨fun a => ?_, fun a => ?_, fun a => ?_, ?_, ?_, ?_, ?_, ?_, ?_, fun hh => i9 (c9 hh)⟩
             · simp only [sumAvail]; have := i1 a; have := c5 a; omega
             · simp only [sumClaimed]; have := i2 a; have := c6 a; omega
             · simp only [sumClaimed]; have := i3 a; have := c7 a; omega
-            · simp only [sumClaimed]
-              have := i3' (fun x hx => h1 x (List.mem_cons_of_mem _ hx)) a
-              have := c8 (h1 e List.mem_cons_self) a
-              omega
             · simp only [List.map_cons, c1, i4]
             · simp only [List.map_cons, c2, i5]
             · simp only [List.map_cons, c3, i5']
@@ -595,14 +479,11 @@ theorem claimWalk_spec (ans : Nat → LairAns) (b : Nat) :
           rw [hw] at h; simp only at h
           injection h with h; injection h with h1 h2
           subst h1; subst h2
-          obtain ⟨i1, i2, i3, i3', i4, i5, i5', i6, i7, i8, i9⟩ := ih es acc es1 t1 hall' hw
-          refine ⟨fun a => ?_, fun a => ?_, fun a => ?_, fun h1 a => ?_, ?_, ?_, ?_, ?_, ?_, ?_, i9⟩
+          obtain ⟨i1, i2, i3, i4, i5, i5', i6, i7, i8, i9⟩ := ih es acc es1 t1 hall' hw
+          refine ⟨fun a => ?_, fun a => ?_, fun a => ?_, ?_, ?_, ?_, ?_, ?_, ?_, i9⟩
           · simp only [sumAvail]; have := i1 a; omega
           · simp only [sumClaimed]; have := i2 a; omega
           · simp only [sumClaimed]; have := i3 a; omega
-          · simp only [sumClaimed]
-            have := i3' (fun x hx => h1 x (List.mem_cons_of_mem _ hx)) a
-            omega
           · simp only [List.map_cons, i4]
           · simp only [List.map_cons, i5]
           · simp only [List.map_cons, i5']
@@ -721,7 +602,11 @@ theorem takeOut_ledger : ∀ (k : Nat) (es : List Epoch), AllLedger es → AllLe
       intro x hx
       simp only [takeOut] at hx
       cases hx with
-      | head => intro hs; simp at hs
+      | head =>
+        refine ⟨fun a => ?_, fun hs => by simp at hs⟩
+        have := (h e List.mem_cons_self).1 a
+        simp only [amtOf]
+        omega
       | tail _ hm => exact h x (List.mem_cons_of_mem _ hm)
   | succ k ih =>
     intro es h
@@ -907,9 +792,7 @@ theorem newEpoch_inv {cfg : Cfg} {s s' : St} {now : Nat} {inflow : Option Nat} (
       simp only at he
       cases he with
       | head =>
-        intro _
-        refine ⟨hnd (nodup_inflowLedger _ _), Or.inl ⟨rfl, rfl⟩, fun a => ?_⟩
-        simp [amtOf]
+        exact ⟨fun a => by simp [amtOf], fun _ => ⟨hnd (nodup_inflowLedger _ _), claimedOk_fresh tot⟩⟩
       | tail _ hm => exact takeOut_ledger _ _ hI.ledger e hm
     · intro a
       simp only [sumAvail]
@@ -990,7 +873,7 @@ theorem claim_spec {s s' : St} {u : Nat} {view : Option Nat} {ans : Nat → Lair
 theorem claim_inv {s s' : St} {u : Nat} {view : Option Nat} {ans : Nat → LairAns} {paid : Ledger} (hI : Inv s)
     (h : claim s u view ans = .ok (s', paid)) : Inv s' := by
   obtain ⟨b, top, rest, es', bal', _, _, hw, hp, hs'⟩ := claim_spec h
-  obtain ⟨i1, _, _, _, i4, _, _, i6, i7, _, _⟩ := claimWalk_spec ans b s.grace s.epochs [] es' paid hI.ledger hw
+  obtain ⟨i1, _, _, i4, _, _, i6, i7, _, _⟩ := claimWalk_spec ans b s.grace s.epochs [] es' paid hI.ledger hw
   subst hs'
   refine { ledger := i7, holds := ?_, grace := hI.grace, outside := ?_, desc := idsDesc_of_map_eq i4 hI.desc }
   · intro a
@@ -1280,7 +1163,7 @@ theorem step_nominal {cfg : Cfg} {s s' : St} {op : Op} (hI : Inv s) (hN : Nomina
       obtain ⟨s1, paid⟩ := pr
       rw [hc] at h; simp only at h; injection h with h; subst h
       obtain ⟨b, top, rest, es', bal', _, _, hw, _, hs'⟩ := claim_spec hc
-      obtain ⟨_, _, _, _, i4, i5, _, _, _, _, _⟩ := claimWalk_spec ans b s.grace s.epochs [] es' paid hI.ledger hw
+      obtain ⟨_, _, _, i4, i5, _, _, _, _, _⟩ := claimWalk_spec ans b s.grace s.epochs [] es' paid hI.ledger hw
       subst hs'
       exact nominal_of_maps cfg _ _ i4 i5 hN
   | grace sender g =>
